@@ -44,7 +44,7 @@ def init_strategy(draw):
         for w in c["ws"]:
             pts.append([w, c["T"], procs.truth_value(tr, w, c["T"])])
     return {
-        "mixture": mix, "curves": curves, "membrane": draw(gen.membrane(3)),
+        "mixture": mix, "curves": curves, "membrane": draw(gen.membrane(3, draw(st.sampled_from([("kg/(m2*h*kPa)",), ("kg/(m2*h*kPa)",), ("SI",), ("GPU",)])))),
         "cond": {"area": 1.0, "T": t, "amount": draw(gen.loguniform(50.0, 5000.0)), "x": draw(gen.mid_fraction()), "basis": draw(gen.basis),
                  "Tp": None, "pp": None},
         "comps": _comps(draw),
@@ -110,6 +110,7 @@ STATEFUL = {"process", "nonideal_curve"}
 class PureHistory:
     def __init__(self, init):
         self.init = init
+        procs.failed_calls_once()  # documented-to-fail calls earlier in THIS process must leave no trace (the fresh process has none)
         self.o = c20ops.build_objects(init)
         self.before = c20ops.shared_snapshot(self.o)
         self.globals = c20ops.globals_snapshot()
